@@ -224,6 +224,7 @@ def showScan (hdr : String) (objs : List Obj) (ok : Bool) : String :=
 partial def handleC01 (toks : List String) : String :=
   match toks with
   | "par" :: _procs :: _tseed :: file => handleC01 ("scan" :: "0" :: file)
+  | "pard" :: _ => "see-handleC02"
   | "scan" :: _procs :: file =>
     match parseFile file with
     | none => "bad-op"
@@ -335,6 +336,12 @@ def handleC06 (toks : List String) : String :=
       | some objss => showCut (nh = 1 ∧ pos ≥ 1) objss.flatten false
     | _, _ => "bad-op"
   | _ => "bad-op"
+
+/-- C02: undamaged files are the C01 specification; a damaged block after intact ones is the C06 specification -/
+def handleC02 (toks : List String) : String :=
+  match toks with
+  | "pard" :: procs :: _tseed :: cls :: pos :: file => handleC06 ("dmg" :: procs :: cls :: pos :: file)
+  | _ => handleC01 toks
 
 /-! ### C07: call histories -/
 
